@@ -207,6 +207,7 @@ func Resolve(p *an.Prog) *Anchors {
 	}
 
 	// package-level tables of the tree package
+	var tableCands []*types.Var
 	for _, n := range a.TreePkg.Scope().Names() {
 		v, ok := a.TreePkg.Scope().Lookup(n).(*types.Var)
 		if !ok {
@@ -222,10 +223,7 @@ func Resolve(p *an.Prog) *Anchors {
 		}
 		if kb.Kind() == types.String {
 			if vb, ok := m.Elem().(*types.Basic); ok && vb.Kind() == types.Int {
-				if a.MethodTable != nil {
-					an.Fatalf("UNRESOLVED anchor: two method tables")
-				}
-				a.MethodTable = v
+				tableCands = append(tableCands, v)
 			}
 		}
 		if kb.Kind() == types.Int {
@@ -235,7 +233,7 @@ func Resolve(p *an.Prog) *Anchors {
 			a.MemoVar = v
 		}
 	}
-	if a.MethodTable == nil || a.MemoVar == nil {
+	if len(tableCands) == 0 || a.MemoVar == nil {
 		an.Fatalf("UNRESOLVED anchor: method table / memo map")
 	}
 
@@ -271,6 +269,26 @@ func Resolve(p *an.Prog) *Anchors {
 				}
 			}
 		})
+	}
+	// the method table is the map[string]int the node summary builder looks its keys up in
+	if a.NodeSummaryBuilder != nil {
+		for _, v := range tableCands {
+			used := false
+			an.AllInstrs(a.NodeSummaryBuilder, func(in ssa.Instruction) {
+				if lk, ok := in.(*ssa.Lookup); ok && an.AP(lk.X) == "global:"+a.TreePkg.Name()+"."+v.Name() {
+					used = true
+				}
+			})
+			if used {
+				if a.MethodTable != nil && a.MethodTable != v {
+					an.Fatalf("UNRESOLVED anchor: two method tables")
+				}
+				a.MethodTable = v
+			}
+		}
+	}
+	if a.MethodTable == nil {
+		an.Fatalf("UNRESOLVED anchor: method table")
 	}
 	if a.IndexBuilder == nil || a.NodeSummaryBuilder == nil || a.TreeSummaryBuilder == nil || a.MemoBuilder == nil {
 		an.Fatalf("UNRESOLVED anchor: builders index=%v nodeSummary=%v treeSummary=%v memo=%v", a.IndexBuilder, a.NodeSummaryBuilder, a.TreeSummaryBuilder, a.MemoBuilder)
